@@ -422,3 +422,110 @@ func ruleCopyDestFresh(c *Check, a *Analysis, rule string) {
 		})
 	}
 }
+
+// ruleStreamCond (C10): every stream object gets its condition variable wired to its own mutex.
+func ruleStreamCond(c *Check, a *Analysis, rule string) {
+	p := c.P
+	c.Rule(rule, "every stream that is constructed has cond.L set to its own mut in the constructing function (a nil Locker panics in Cond.Wait)", 2)
+	sc := siteCounter{}
+	for _, fn := range p.Fns {
+		eachInstr(fn, func(in ssa.Instruction) {
+			al, ok := in.(*ssa.Alloc)
+			if !ok || pointeeName(al) != "stream" {
+				return
+			}
+			wired := false
+			for _, f := range withClosures(topParent(fn)) {
+				for _, st := range storesIn(f) {
+					fa, isFA := st.Addr.(*ssa.FieldAddr)
+					if !isFA {
+						continue
+					}
+					fr, _, okf := fieldOfAddr(fa)
+					if !okf || fr.Struct != "sync.Cond" || fr.Field != "L" {
+						continue
+					}
+					// value is &X.mut
+					for _, o := range p.origins(st.Val) {
+						if mi, isMI := o.(*ssa.MakeInterface); isMI {
+							o = mi.X
+						}
+						if f2, _, ok2 := fieldOfAddr(unwrap(o)); ok2 && f2.Struct == "stream" && f2.Field == "mut" {
+							wired = true
+						}
+					}
+				}
+			}
+			c.Ob(rule, sc.key(fn, "stream.cond.L = &stream.mut"), p.InstrPos(in), wired, ifs(!wired, "a stream is created without its condition variable being bound to its mutex: the first blocking ReadMessage panics"))
+		})
+	}
+}
+
+// rulePushCtx (C09): the push closure equips its private context before writing.
+func rulePushCtx(c *Check, a *Analysis, rule string) {
+	p := c.P
+	c.Rule(rule, "the server's push closure installs an upgrade object into its private context before WriteResponse", 1)
+	for _, fn := range p.Fns {
+		if fn.Parent() == nil || !strings.HasPrefix(fname(topParent(fn)), "(*Server).") {
+			continue
+		}
+		for _, w := range invokesIn(fn, "ServerCodec", "WriteResponse") {
+			ctxArg := p.canon(w.Common().Args[0])
+			ok := false
+			for _, st := range p.fieldStoresIn(fn, "Context", "upgrade") {
+				_, base, _ := fieldOfAddr(st.Addr)
+				if p.canon(base) == ctxArg && p.dominatesInstr(st, w.(ssa.Instruction)) && !nilConst(st.Val) {
+					ok = true
+				}
+			}
+			c.Ob(rule, fname(fn)+"#sendCtx.upgrade installed", p.InstrPos(w), ok, ifs(!ok, "the push closure writes with a context whose upgrade was never installed: nil dereference on the first server push"))
+		}
+	}
+}
+
+// ruleWGDiscipline (C08/C10/C20): Add(1) when queueing, deferred Done in the worker.
+func ruleWGDiscipline(c *Check, a *Analysis, rule string) {
+	p := c.P
+	if _, ok := c.rules[rule]; !ok {
+		c.Rule(rule, "the connection wait group is incremented by exactly 1 per queued handler, and the worker defers Done whenever it was given the wait group", 3)
+	}
+	sc := siteCounter{}
+	for _, fn := range p.Fns {
+		if !strings.HasPrefix(fname(topParent(fn)), "(*Server).") {
+			continue
+		}
+		for _, ad := range callsIn(fn, "(*sync.WaitGroup).Add") {
+			k, isK := constInt(ad.Common().Args[1])
+			c.Ob(rule, sc.key(fn, "wg.Add(1)"), p.InstrPos(ad), isK && k == 1, ifs(!(isK && k == 1), "the wait group is incremented by "+describe(ad.Common().Args[1])+" for one handler: the matching Done drives the counter negative (panic) or teardown waits forever"))
+		}
+	}
+	if hr := p.Fn("(*Server).handleRequest"); hr != nil {
+		var wg ssa.Value
+		for _, prm := range hr.Params {
+			if strings.Contains(prm.Type().String(), "WaitGroup") {
+				wg = prm
+			}
+		}
+		ok := false
+		if wg != nil {
+			eachInstr(hr, func(in ssa.Instruction) {
+				d, isD := in.(*ssa.Defer)
+				if !isD || calleeNameCommon(d.Common()) != "(*sync.WaitGroup).Done" {
+					return
+				}
+				g, _ := p.guardedBy(in, negate(matchValueNil(p, wg)))
+				// and nothing that can block or return precedes it
+				first := true
+				eachInstr(hr, func(x ssa.Instruction) {
+					if cc, isC := x.(*ssa.Call); isC && p.dominatesInstr(x, in) && !strings.HasPrefix(calleeName(cc), "builtin") {
+						first = false
+					}
+				})
+				if g && first {
+					ok = true
+				}
+			})
+		}
+		c.Ob(rule, "(*Server).handleRequest#defers wg.Done when given a wait group", hr.Pos(), ok, ifs(!ok, "the worker does not defer wg.Done() (first thing, when wg != nil): a handler that was counted is never discounted and the connection's teardown waits forever"))
+	}
+}
